@@ -67,7 +67,7 @@ func runPath(p *program, cfg *runConfig, solver *Solver, fallback func() *Solver
 		concCount: map[string]int{}, mstates: map[*value]*mstate{}, syncMaps: map[*value]*gmap{},
 		globals: map[*ssa.Global]*value{}, inited: map[*ssa.Package]bool{},
 		fallback: fallback,
-		exitAck:  make(chan struct{}), known: map[*Term]bool{}, ubounds: map[*Term]uint64{}, lbounds: map[*Term]uint64{}, fromInts: map[*Term]*Term{},
+		exitAck:  make(chan struct{}), known: map[*Term]bool{}, ubounds: map[*Term]uint64{}, lbounds: map[*Term]uint64{}, fromInts: map[*Term]*Term{}, blobOf: map[*Term]*jsonBlob{},
 	}
 	mainG := &gor{id: 0, wake: make(chan struct{}), main: true}
 	ex.gors = []*gor{mainG}
